@@ -36,7 +36,16 @@
      RemoveOnNone         `Restion::None` is treated like an error
      LateConnect          admission inserts the stream, connect is only dispatched after its first poll
      BroadcastSkipsSender a handler's broadcast is not written to the originating client
-     UnicastToAll         a unicast is written to every stream *)
+     UnicastToAll         a unicast is written to every stream
+     PingSkippedWhenActive the heartbeat ping is not sent to a stream that delivered a message in the same
+                          iteration, although liveness is judged by the last pong alone
+
+   Heartbeat.  Time is abstracted to ping rounds: a round is an iteration in which `will_ping` is true
+   (last_ping.elapsed() >= interval); rounds[c] counts the rounds that began since the loop last read a
+   Pong from c (or admitted c), and `last_pong.elapsed() >= timeout` is rounds[c] >= 2 (timeout = two
+   intervals; the loop iterates often compared with the interval).  In a round every stream that is still
+   in the map after it was drained is sent a Ping (pq[c] = pings the client has not answered yet); the
+   client answers when it chooses to (Cl_Pong) - a client that does not is "silent". *)
 EXTENDS Naturals, Sequences, FiniteSets, TLC
 
 CONSTANTS Clients,       \* client ids (small positive integers; one id = one socket address)
@@ -53,7 +62,7 @@ CONSTANTS Clients,       \* client ids (small positive integers; one id = one so
 
 NoClient == 0        \* client ids are compared, never computed with: the MC configs use model values
 DevNames == {"InvocationInversion", "DoubleDisconnect", "RemoveOnNone", "LateConnect",
-             "BroadcastSkipsSender", "UnicastToAll"}
+             "BroadcastSkipsSender", "UnicastToAll", "PingSkippedWhenActive"}
 ASSUME Dev \subseteq DevNames
 ASSUME Reply["D"] # "uni"         \* AsyncStream::send asserts `connected`
 
@@ -80,11 +89,17 @@ VARIABLES
   iseq,      \* history: per client, the events in invocation order
   admitted,  \* history: clients that were ever inserted into `streams`
   tmo,       \* history: clients removed by the heartbeat timeout
-  flog       \* history: one record per flushed outgoing message: the ideal set of receivers
+  flog,      \* history: one record per flushed outgoing message: the ideal set of receivers
+  wp,        \* will_ping of the current iteration
+  rounds,    \* per stream: ping rounds begun since the last Pong was read (capped at 2 = timed out)
+  pq,        \* per client: Pings written to it that it has not answered
+  act,       \* the stream being drained delivered a message in this iteration
+  tmoBad     \* history: clients reaped by the heartbeat although open and with no Ping unanswered
 
 loopvars == <<lpc, keys, cur>>
+hbvars == <<wp, rounds, pq, act, tmoBad>>
 vars == <<cst, sent, pings, net, pending, incoming, streams, lpc, keys, cur, q, wst, wtask,
-          outgoing, ext, shut, sentTo, rxn, dseq, iseq, admitted, tmo, flog>>
+          outgoing, ext, shut, sentTo, rxn, dseq, iseq, admitted, tmo, flog, wp, rounds, pq, act, tmoBad>>
 
 Frame(k, m)              == [k |-> k, m |-> m]                         \* k: "m" | "ping" | "close"
 Ev(k, m)                 == [k |-> k, m |-> m]                         \* k: "C" | "M" | "D"
@@ -106,6 +121,7 @@ Init ==
   /\ sentTo = [c \in Clients |-> <<>>] /\ rxn = [c \in Clients |-> 0]
   /\ dseq = [c \in Clients |-> <<>>] /\ iseq = [c \in Clients |-> <<>>]
   /\ admitted = {} /\ tmo = {} /\ flog = {}
+  /\ wp = FALSE /\ rounds = [c \in Clients |-> 0] /\ pq = [c \in Clients |-> 0] /\ act = FALSE /\ tmoBad = {}
 
 (***************************************************************************)
 (* Effects shared by the phase-guarded loop actions below and by the trace *)
@@ -169,6 +185,14 @@ VanishEff(c, how) ==
   /\ UNCHANGED <<sent, pings, net, pending, incoming, streams, q, wst, wtask, outgoing, ext, shut,
                  sentTo, rxn, dseq, iseq, admitted, tmo, flog>>
 
+\* the client answers a heartbeat Ping (a responsive client does so promptly, a silent one never)
+PongPre(c) == cst[c] = "open" /\ pq[c] > 0
+PongEff(c) ==
+  /\ pq' = [pq EXCEPT ![c] = @ - 1]
+  /\ net' = [net EXCEPT ![c] = Append(@, Frame("pong", 0))]
+  /\ UNCHANGED <<cst, sent, pings, pending, incoming, streams, q, wst, wtask, outgoing, ext, shut,
+                 sentTo, rxn, dseq, iseq, admitted, tmo, flog>>
+
 \* the client reads the next frame the loop wrote to it
 RxPre(c) == cst[c] \in {"open", "closed"} /\ rxn[c] < Len(sentTo[c])
 RxEff(c) ==
@@ -197,7 +221,7 @@ RecvMsgEff(c) ==
                  sentTo, rxn, iseq, admitted, tmo, flog>>
 
 \* Message::from_stream_nonblocking answers a ping / notes a pong and keeps reading
-RecvCtlPre(c) == c \in streams /\ net[c] # <<>> /\ Head(net[c]).k = "ping"
+RecvCtlPre(c) == c \in streams /\ net[c] # <<>> /\ Head(net[c]).k \in {"ping", "pong"}
 RecvCtlEff(c) ==
   /\ net' = [net EXCEPT ![c] = Tail(@)]
   /\ UNCHANGED <<cst, sent, pings, pending, incoming, streams, q, wst, wtask, outgoing, ext, shut,
@@ -235,9 +259,9 @@ RecvNoneEff(c) ==
   ELSE UNCHANGED <<cst, sent, pings, net, pending, incoming, streams, q, wst, wtask, outgoing, ext, shut,
                    sentTo, rxn, dseq, iseq, admitted, tmo, flog>>
 
-\* last_pong.elapsed() >= timeout. The model lets any stream time out when the heartbeat is on
-\* (a slow client is not distinguishable from a dead one); unread input stays unread.
-TimeoutPre(c) == c \in streams /\ Heartbeat /\ Mode = "free"
+\* last_pong.elapsed() >= timeout: two ping rounds began and no Pong was read since
+TimedOut(c) == Heartbeat /\ rounds[c] >= 2
+TimeoutPre(c) == c \in streams /\ TimedOut(c) /\ Mode = "free"
 TimeoutEff(c) ==
   /\ Dispatch("D", c, 0)
   /\ streams' = streams \ {c}
@@ -307,14 +331,16 @@ HDoneEff(w) ==
 (***************************************************************************)
 (* The actions                                                             *)
 (***************************************************************************)
-Cl_Connect(c)     == EnvMayAct /\ ConnectPre(c) /\ ConnectEff(c) /\ UNCHANGED loopvars
-Srv_Enqueue(c)    == lpc # "done" /\ EnqueuePre(c) /\ EnqueueEff(c) /\ UNCHANGED loopvars
-Cl_Send(c)        == EnvMayAct /\ SingleInput(c) /\ SendPre(c) /\ SendEff(c) /\ UNCHANGED loopvars
-Cl_Ping(c)        == EnvMayAct /\ SingleInput(c) /\ PingPre(c) /\ PingEff(c) /\ UNCHANGED loopvars
-Cl_Close(c)       == EnvMayAct /\ SingleInput(c) /\ ClosePre(c) /\ CloseEff(c) /\ UNCHANGED loopvars
-Cl_Vanish(c, how) == EnvMayAct /\ SingleInput(c) /\ VanishPre(c, how) /\ VanishEff(c, how) /\ UNCHANGED loopvars
-Cl_Rx(c)          == RxPre(c) /\ RxEff(c) /\ UNCHANGED loopvars
-Ext_Send(k, to)   == EnvMayAct /\ ExtPre(k, to) /\ ExtEff(k, to) /\ UNCHANGED loopvars
+Cl_Connect(c)     == EnvMayAct /\ ConnectPre(c) /\ ConnectEff(c) /\ UNCHANGED loopvars /\ UNCHANGED hbvars
+Srv_Enqueue(c)    == lpc # "done" /\ EnqueuePre(c) /\ EnqueueEff(c) /\ UNCHANGED loopvars /\ UNCHANGED hbvars
+Cl_Send(c)        == EnvMayAct /\ SingleInput(c) /\ SendPre(c) /\ SendEff(c) /\ UNCHANGED loopvars /\ UNCHANGED hbvars
+Cl_Ping(c)        == EnvMayAct /\ SingleInput(c) /\ PingPre(c) /\ PingEff(c) /\ UNCHANGED loopvars /\ UNCHANGED hbvars
+Cl_Close(c)       == EnvMayAct /\ SingleInput(c) /\ ClosePre(c) /\ CloseEff(c) /\ UNCHANGED loopvars /\ UNCHANGED hbvars
+Cl_Vanish(c, how) == EnvMayAct /\ SingleInput(c) /\ VanishPre(c, how) /\ VanishEff(c, how) /\ UNCHANGED loopvars /\ UNCHANGED hbvars
+Cl_Pong(c)        == lpc # "done" /\ PongPre(c) /\ PongEff(c) /\ UNCHANGED loopvars
+                     /\ UNCHANGED <<wp, rounds, act, tmoBad>>
+Cl_Rx(c)          == RxPre(c) /\ RxEff(c) /\ UNCHANGED loopvars /\ UNCHANGED hbvars
+Ext_Send(k, to)   == EnvMayAct /\ ExtPre(k, to) /\ ExtEff(k, to) /\ UNCHANGED loopvars /\ UNCHANGED hbvars
 
 WorkersIdle == \A w \in Workers : wst[w] = "idle"
 \* nothing is in flight anywhere (the harness signals shutdown after such a settle period)
@@ -329,6 +355,7 @@ Env_Shutdown ==
   /\ shut' = "sent"
   /\ UNCHANGED <<cst, sent, pings, net, pending, incoming, streams, lpc, keys, cur, q, wst, wtask,
                  outgoing, ext, sentTo, rxn, dseq, iseq, admitted, tmo, flog>>
+  /\ UNCHANGED hbvars
 
 \* if let Some(ref s) = self.shutdown { if s.try_recv().is_ok() { break } }   ... thread_pool.stop()
 Loop_Shutdown ==
@@ -336,12 +363,19 @@ Loop_Shutdown ==
   /\ lpc' = "done" /\ shut' = "seen"
   /\ UNCHANGED <<cst, sent, pings, net, pending, incoming, streams, keys, cur, q, wst, wtask,
                  outgoing, ext, sentTo, rxn, dseq, iseq, admitted, tmo, flog>>
+  /\ UNCHANGED hbvars
 
 \* let keys = self.streams.keys().copied().collect()        (no stream: straight to the admit phase)
 Loop_Begin ==
   /\ lpc = "top" /\ shut # "sent"
   /\ (Mode = "lockstep" => pending = {})
   /\ lpc' = (IF streams = {} THEN "admit" ELSE "poll") /\ keys' = streams /\ cur' = NoClient
+  \* will_ping = last_ping.elapsed() >= interval: some iterations are ping rounds
+  /\ wp' \in (IF Heartbeat /\ Mode = "free" THEN BOOLEAN ELSE {FALSE})
+  /\ rounds' = (IF wp' THEN [c \in Clients |-> IF c \in streams /\ rounds[c] < 2 THEN rounds[c] + 1 ELSE rounds[c]]
+                 ELSE rounds)
+  /\ act' = FALSE
+  /\ UNCHANGED <<pq, tmoBad>>
   /\ UNCHANGED <<cst, sent, pings, net, pending, incoming, streams, q, wst, wtask,
                  outgoing, ext, shut, sentTo, rxn, dseq, iseq, admitted, tmo, flog>>
 
@@ -352,12 +386,24 @@ AtStream(c) == lpc = "poll" /\ (cur = c \/ (cur = NoClient /\ c \in keys))
 Stay(c)  == cur' = c /\ keys' = keys \ {c} /\ lpc' = lpc
 Leave(c) == cur' = NoClient /\ keys' = keys \ {c}
             /\ lpc' = (IF keys \ {c} = {} THEN "admit" ELSE "poll")
+Forget(c) == rounds' = [rounds EXCEPT ![c] = 0] /\ pq' = [pq EXCEPT ![c] = 0]
 Loop_RecvMsg(c)  == AtStream(c) /\ RecvMsgPre(c) /\ RecvMsgEff(c) /\ Stay(c)
+                    /\ act' = TRUE /\ UNCHANGED <<wp, rounds, pq, tmoBad>>
+\* a Pong sets last_pong = now
 Loop_RecvCtl(c)  == AtStream(c) /\ RecvCtlPre(c) /\ RecvCtlEff(c) /\ Stay(c)
+                    /\ rounds' = (IF Head(net[c]).k = "pong" THEN [rounds EXCEPT ![c] = 0] ELSE rounds)
+                    /\ UNCHANGED <<wp, pq, act, tmoBad>>
 Loop_RecvErr(c)  == AtStream(c) /\ RecvErrPre(c) /\ RecvErrEff(c) /\ Leave(c)
-Loop_RecvNone(c) == AtStream(c) /\ RecvNonePre(c) /\ RecvNoneEff(c) /\ Leave(c)
-\* (None, then) last_pong.elapsed() >= timeout
+                    /\ Forget(c) /\ act' = FALSE /\ UNCHANGED <<wp, tmoBad>>
+\* None, the stream has not timed out: `if will_ping { stream.inner.ping() }`
+Loop_RecvNone(c) == AtStream(c) /\ RecvNonePre(c) /\ ~TimedOut(c) /\ RecvNoneEff(c) /\ Leave(c)
+                    /\ pq' = (IF wp /\ "RemoveOnNone" \notin Dev /\ ~("PingSkippedWhenActive" \in Dev /\ act)
+                               THEN [pq EXCEPT ![c] = IF @ < 2 THEN @ + 1 ELSE @] ELSE pq)
+                    /\ act' = FALSE /\ UNCHANGED <<wp, rounds, tmoBad>>
+\* None, and last_pong.elapsed() >= timeout
 Loop_Timeout(c)  == AtStream(c) /\ RecvNonePre(c) /\ TimeoutPre(c) /\ TimeoutEff(c) /\ Leave(c)
+                    /\ tmoBad' = (IF cst[c] = "open" /\ pq[c] = 0 THEN tmoBad \cup {c} ELSE tmoBad)
+                    /\ Forget(c) /\ act' = FALSE /\ UNCHANGED wp
 
 \* for (addr, stream) in incoming_streams.try_iter().filter_map(peer_addr ok)
 Loop_Admit ==
@@ -366,17 +412,20 @@ Loop_Admit ==
   /\ AdmitEff(Head(incoming))
   /\ UNCHANGED <<cst, sent, pings, net, pending, lpc, keys, cur, wst, wtask,
                  outgoing, ext, shut, sentTo, rxn, iseq, tmo, flog>>
+  /\ UNCHANGED hbvars
 \* peer_addr() fails on a socket that was reset before admission: the stream is dropped silently
 Loop_AdmitDrop ==
   /\ lpc = "admit" /\ incoming # <<>> /\ cst[Head(incoming)] = "gone_rst"
   /\ incoming' = Tail(incoming)
   /\ UNCHANGED <<cst, sent, pings, net, pending, streams, lpc, keys, cur, q, wst, wtask,
                  outgoing, ext, shut, sentTo, rxn, dseq, iseq, admitted, tmo, flog>>
+  /\ UNCHANGED hbvars
 Loop_AdmitDone ==
   /\ lpc = "admit" /\ incoming = <<>>
   /\ lpc' = "flush"
   /\ UNCHANGED <<cst, sent, pings, net, pending, incoming, streams, keys, cur, q, wst, wtask,
                  outgoing, ext, shut, sentTo, rxn, dseq, iseq, admitted, tmo, flog>>
+  /\ UNCHANGED hbvars
 
 \* for message in self.outgoing_messages.try_iter()
 Loop_Flush ==
@@ -385,15 +434,17 @@ Loop_Flush ==
   /\ IF Head(outgoing).k = "uni" THEN FlushUniEff(Head(outgoing)) ELSE FlushBcEff(Head(outgoing))
   /\ UNCHANGED <<cst, sent, pings, net, pending, incoming, streams, lpc, keys, cur, q, wst, wtask,
                  ext, shut, rxn, dseq, iseq, admitted, tmo>>
+  /\ UNCHANGED hbvars
 Loop_FlushDone ==
   /\ lpc = "flush" /\ outgoing = <<>>
   /\ lpc' = "top"
   /\ UNCHANGED <<cst, sent, pings, net, pending, incoming, streams, keys, cur, q, wst, wtask,
                  outgoing, ext, shut, sentTo, rxn, dseq, iseq, admitted, tmo, flog>>
+  /\ UNCHANGED hbvars
 
 PoolMayAct == Mode = "lockstep" => lpc \in {"top", "done"}
-Worker_Take(w)   == PoolMayAct /\ TakePre(w) /\ TakeEff(w) /\ UNCHANGED loopvars
-Worker_Invoke(w) == PoolMayAct /\ InvokePre(w) /\ InvokeEff(w) /\ UNCHANGED loopvars
+Worker_Take(w)   == PoolMayAct /\ TakePre(w) /\ TakeEff(w) /\ UNCHANGED loopvars /\ UNCHANGED hbvars
+Worker_Invoke(w) == PoolMayAct /\ InvokePre(w) /\ InvokeEff(w) /\ UNCHANGED loopvars /\ UNCHANGED hbvars
 \* the handler body: at most one send, as configured by Reply, then return
 Worker_Finish(w) ==
   /\ PoolMayAct /\ wst[w] = "run"
@@ -403,9 +454,11 @@ Worker_Finish(w) ==
                          wtask[w].k, wtask[w].c, wtask[w].m, 1))
   /\ UNCHANGED <<cst, sent, pings, net, pending, incoming, streams, lpc, keys, cur, q, ext, shut,
                  sentTo, rxn, dseq, iseq, admitted, tmo, flog>>
+  /\ UNCHANGED hbvars
 
 ClientNext == \E c \in Clients : \/ Cl_Connect(c) \/ Cl_Send(c) \/ Cl_Ping(c) \/ Cl_Close(c)
                                  \/ Cl_Vanish(c, "fin") \/ Cl_Vanish(c, "rst") \/ Srv_Enqueue(c)
+                                 \/ Cl_Pong(c)
 LoopNext == \/ Loop_Shutdown \/ Loop_Begin \/ Loop_Admit \/ Loop_AdmitDrop
             \/ Loop_AdmitDone \/ Loop_Flush \/ Loop_FlushDone
             \/ \E c \in Clients : \/ Loop_RecvMsg(c) \/ Loop_RecvCtl(c)
@@ -454,6 +507,8 @@ AcceptedIsConnected  == \A c \in admitted : CountK(dseq[c], "C") = 1
 RemovedIsDisconnected == \A c \in admitted : c \notin streams => CountK(dseq[c], "D") = 1
 \* no disconnect for a client that is neither closed, gone, nor timed out by the heartbeat
 DisconnectOnlyIfClosed == \A c \in Clients : Has(dseq[c], "D") => (cst[c] # "open" \/ c \in tmo)
+\* ... and the heartbeat reaps only clients that left a Ping unanswered (or are closed / gone anyway)
+DisconnectOnlyIfClosedOrSilent == DisconnectOnlyIfClosed /\ tmoBad = {}
 \* nothing is dispatched for a client that was never inserted
 OnlyAdmittedDispatched == \A c \in Clients : dseq[c] # <<>> => c \in admitted
 
@@ -491,7 +546,7 @@ CurInStreams == (lpc = "poll" /\ cur # NoClient) => (cur \in streams \/ "DoubleD
 
 DispatchInvs == /\ ConnectOnce_D /\ ConnectBeforeMessages_D /\ MessageOncePerClientOrder_D
                 /\ DisconnectOnce_D /\ NothingAfterDisconnect_D
-                /\ AcceptedIsConnected /\ RemovedIsDisconnected /\ DisconnectOnlyIfClosed
+                /\ AcceptedIsConnected /\ RemovedIsDisconnected /\ DisconnectOnlyIfClosedOrSilent
                 /\ OnlyAdmittedDispatched
 InvocationInvs == /\ ConnectOnce_I /\ ConnectBeforeMessages_I /\ MessageOncePerClientOrder_I
                   /\ DisconnectOnce_I /\ NothingAfterDisconnect_I /\ InvokedWasDispatched
